@@ -49,12 +49,15 @@ def setup_worker():
 
 
 @st.composite
-def vector_case(draw, formats, tier, max_sources=None, solid_only=False, allow_groups=True, transforms=True, p_grad=0.4):
+def vector_case(draw, formats, tier, max_sources=None, solid_only=False, allow_groups=True, transforms=True, p_grad=0.4,
+                lib_always=False, place_classes=None, lib_prob=0.6, tolerances=None, kinds=None):
     cfg = draw(font_config(formats, transforms=transforms))
     palette = draw(font_palette())
     nmax = max_sources or (6 if tier == "quick" else 10)
     n = draw(st.integers(1, nmax))
-    lib = draw(shape_library()) if draw(st.integers(0, 2)) == 0 or n == 1 and draw(st.booleans()) else None
+    lib = draw(shape_library(kinds=kinds)) if lib_always or draw(st.integers(0, 2)) == 0 or n == 1 and draw(st.booleans()) else None
+    if tolerances is not None:
+        cfg["reuse_tolerance"] = draw(st.sampled_from(tolerances))
     share_vb = draw(st.booleans())
     vb0 = None
     sources = []
@@ -63,9 +66,11 @@ def vector_case(draw, formats, tier, max_sources=None, solid_only=False, allow_g
         seqs = simple_cps(n)
     for i in range(n):
         m = draw(source_model(palette, lib, vb=vb0 if share_vb else None, max_shapes=5 if tier == "quick" else 8,
-                              solid_only=solid_only, allow_groups=allow_groups, p_grad=p_grad))
+                              solid_only=solid_only, allow_groups=allow_groups, p_grad=p_grad, place_classes=place_classes, lib_prob=lib_prob))
         if share_vb and vb0 is None:
             vb0 = m["vb"]
+        if n > 1 and i > 0 and draw(st.sampled_from([False] * 14 + [True])):
+            m = dict(m, nodes=[])  # a source that paints nothing
         sources.append({"model": m, "cps": seqs[i]})
     return {"cfg": cfg, "sources": sources}
 
@@ -95,14 +100,22 @@ def sample_repr(case):
     return {"cfg": case["cfg"], "sources": [{"cps": s["cps"], "svg": source_text(s)[:600]} for s in case["sources"][:2]], "n_sources": len(case["sources"])}
 
 
-SAFE_COORD = 16000.0
+# gradient circles are first mapped by the *largest* scale of an anisotropic transform (then squeezed back by a wrapping
+# PaintTransform), so intermediate values can exceed the final geometry several times; only geometry well below
+# int16 / 8 counts as comfortably in range
+SAFE_COORD = 4000.0
 
 
 def judge_rejection(v, r, refs, cfg):
     """The build raised. Accept as 'does not fit the format' only if the reference itself is near the field limits."""
     e = r.error
     name = type(e).__name__
-    biggest = max([rf.max_coord() for rf in refs] + [0.0])
+    biggest = max([rf.max_coord() for rf in refs] + [float(rf.advance) for rf in refs] + [0.0])
+    t = list(cfg.get("transform") or [1, 0, 0, 1, 0, 0])
+    if isinstance(e, ValueError) and "Expected uniform scale and/or translate" in str(e) and (abs(abs(t[0]) - abs(t[3])) > 1e-12 or t[1] or t[2]) and cfg["color_format"].startswith("picosvg"):
+        # OT-SVG output explicitly refuses radial gradients under a non-similarity user transform
+        v.rejected = "ValueError(radial gradient under non-uniform user transform, OT-SVG)"
+        return
     if biggest > SAFE_COORD or cfg["upem"] > 16384:
         v.rejected = "%s(out-of-range geometry)" % name
         return
